@@ -329,7 +329,21 @@ var jsonFloatPool = []float64{0.5, -2.25, 0.1, 1e21, 1e20, 9.999999999999999e20,
 	1.7976931348623157e308, 2.2250738585072014e-308, 5e-324, 1e22, 1.5e300, 100.5, 1e-10}
 var jsonWholeFloats = []float64{0, math.Copysign(0, -1), 1, -3, 1e15, 123456, 1e20}
 
+var jsonCharPool = []string{"a", "Z", "0", " ", "\"", "\\", "/", "\n", "\t", "\r", "\b", "\f", "\x00", "\x1f", "\x7f", "é", "ß", "€", "日", "\u2028", "\u2029", "\ufeff", "\ufffd",
+	"\U0001F600", "\U00010000", "\U0010FFFF", "<", ">", "&", "'", "%", "\u00a0", "\u0080", "\u07ff", "\u0800", "\uffff"}
+
+func randJSONString(rng *rand.Rand) string {
+	var sb strings.Builder
+	for i, n := 0, rng.Intn(7); i < n; i++ {
+		sb.WriteString(jsonCharPool[rng.Intn(len(jsonCharPool))])
+	}
+	return sb.String()
+}
+
 func scalarOf(class string, rng *rand.Rand) tengo.Object {
+	if (class == "str" || class == "escstr") && rng.Intn(2) == 0 {
+		return &tengo.String{Value: randJSONString(rng)}
+	}
 	switch class {
 	case "null":
 		return tengo.UndefinedValue
@@ -368,6 +382,9 @@ func scalarOf(class string, rng *rand.Rand) tengo.Object {
 func keyOf(class string, rng *rand.Rand) string {
 	switch class {
 	case "esc":
+		if rng.Intn(2) == 0 {
+			return randJSONString(rng)
+		}
 		return []string{"q\"", "\\", "\n", "\x01", "é"}[rng.Intn(5)]
 	case "empty":
 		return ""
@@ -390,7 +407,11 @@ func randValue(rng *rand.Rand, depth int) tengo.Object {
 		}
 		m := &tengo.Map{Value: map[string]tengo.Object{}}
 		for i, n := 0, rng.Intn(4); i < n; i++ {
-			m.Value[jsonStrPool[rng.Intn(len(jsonStrPool))]] = randValue(rng, depth-1)
+			k := jsonStrPool[rng.Intn(len(jsonStrPool))]
+			if rng.Intn(2) == 0 {
+				k = randJSONString(rng)
+			}
+			m.Value[k] = randValue(rng, depth-1)
 		}
 		if rng.Intn(6) == 0 {
 			return &tengo.ImmutableMap{Value: m.Value}
